@@ -1,4 +1,4 @@
-import Marwood.Lemmas.NumArith
+import Marwood.Lemmas.NumScm
 /-!
 # C08 — exact arithmetic is exact; inexactness is never silently dropped
 
@@ -22,25 +22,25 @@ open Marwood Marwood.Arith Marwood.NumSpec
 theorem add_exact_correct (a b : Num) (ha : a.WF = true) (hb : b.WF = true)
     (h : isExact (add a b) = true) :
     ∃ x y, val a = some x ∧ val b = some y ∧ val (add a b) = some (x + y) :=
-  add_exact a b ha hb h
+  add_exact a b (DenPos.of_wf ha) (DenPos.of_wf hb) h
 
 /-- T08.1 (−) -/
 theorem sub_exact_correct (a b : Num) (ha : a.WF = true) (hb : b.WF = true)
     (h : isExact (sub a b) = true) :
     ∃ x y, val a = some x ∧ val b = some y ∧ val (sub a b) = some (x - y) :=
-  sub_exact a b ha hb h
+  sub_exact a b (DenPos.of_wf ha) (DenPos.of_wf hb) h
 
 /-- T08.1 (×) -/
 theorem mul_exact_correct (a b : Num) (ha : a.WF = true) (hb : b.WF = true)
     (h : isExact (mul a b) = true) :
     ∃ x y, val a = some x ∧ val b = some y ∧ val (mul a b) = some (x * y) :=
-  mul_exact a b ha hb h
+  mul_exact a b (DenPos.of_wf ha) (DenPos.of_wf hb) h
 
 /-- T08.1 (÷): an exact quotient implies a non-zero divisor and is the quotient in ℚ. -/
 theorem div_exact_correct (a b : Num) (ha : a.WF = true) (hb : b.WF = true) {r : Num}
     (h : div a b = .ok r) (he : isExact r = true) :
     ∃ x y, val a = some x ∧ val b = some y ∧ y ≠ 0 ∧ val r = some (x / y) :=
-  div_exact a b ha hb h he
+  div_exact a b (DenPos.of_wf ha) (DenPos.of_wf hb) h he
 
 /-! ### T08.3 — quotient, remainder, modulo -/
 
@@ -69,6 +69,225 @@ theorem intVal_exact {r : Num} {t : Int} (h : intVal? r = some t) :
   refine ⟨?_, intVal_val h⟩
   cases r <;> simp_all [intVal?, isExact]
 
+/-- T08.3 at the level of the procedures: `(quotient a b)`, `(remainder a b)`, `(modulo a b)` on
+    exact integers answer an error for a zero divisor and otherwise exactly `tdiv`/`tmod`/`fmod` —
+    never a panic. -/
+theorem scm_integer_division (a b : Num) (hb : b.WF = true) {x y : Int}
+    (hx : intVal? a = some x) (hy : intVal? b = some y) :
+    (y = 0 → scmQuotient [a, b] = some (.err "syntax") ∧ scmRemainder [a, b] = some (.err "syntax")
+      ∧ scmModulo [a, b] = some (.err "syntax")) ∧
+    (y ≠ 0 → ∃ q r m, scmQuotient [a, b] = some (.ok q) ∧ intVal? q = some (x.tdiv y) ∧
+      scmRemainder [a, b] = some (.ok r) ∧ intVal? r = some (x.tmod y) ∧
+      scmModulo [a, b] = some (.ok m) ∧ intVal? m = some (x.fmod y)) := by
+  constructor
+  · intro h0
+    exact ⟨(scmIntOp_spec quotient a b hx hy).1 h0, (scmIntOp_spec rem a b hx hy).1 h0,
+      (scmIntOp_spec modulo a b hx hy).1 h0⟩
+  · intro h0
+    obtain ⟨q, hq, hqv⟩ := quotient_spec a b hx hy h0
+    obtain ⟨r, hr, hrv, _⟩ := rem_spec a b hx hy h0
+    obtain ⟨m, hm, hmv⟩ := modulo_spec a b hb hx hy h0
+    exact ⟨q, r, m, (scmIntOp_spec quotient a b hx hy).2 h0 q hq, hqv,
+      (scmIntOp_spec rem a b hx hy).2 h0 r hr, hrv,
+      (scmIntOp_spec modulo a b hx hy).2 h0 m hm, hmv⟩
+
+/-! ### T08.1 continued — unary operations and expt -/
+
+/-- `floor`: always exact, the integer `k` with `k ≤ x < k + 1`. -/
+theorem floor_correct (a : Num) (ha : a.WF = true) {r : Num} (h : floor a = some r) :
+    ∃ (x : Rat) (k : Int), val a = some x ∧ val r = some (k : Rat) ∧ (k : Rat) ≤ x ∧ x < k + 1 :=
+  floor_spec a ha h
+
+/-- `ceiling`: always exact, the integer `k` with `k - 1 < x ≤ k`. -/
+theorem ceiling_correct (a : Num) (ha : a.WF = true) {r : Num} (h : ceil a = some r) :
+    ∃ (x : Rat) (k : Int), val a = some x ∧ val r = some (k : Rat) ∧ x ≤ (k : Rat) ∧ (k : Rat) - 1 < x :=
+  ceil_spec a ha h
+
+/-- `truncate`: always exact, rounds towards zero. -/
+theorem truncate_correct (a : Num) (ha : a.WF = true) {r : Num} (h : truncate a = some r) :
+    ∃ (x : Rat) (k : Int), val a = some x ∧ val r = some (k : Rat) ∧
+      (0 ≤ x → (k : Rat) ≤ x ∧ x < k + 1) ∧ (x ≤ 0 → x ≤ (k : Rat) ∧ (k : Rat) - 1 < x) :=
+  truncate_spec a ha h
+
+/-- `abs`: an exact answer is the absolute value. -/
+theorem abs_correct (a : Num) (ha : a.WF = true) {r : Num} (h : abs a = some r)
+    (he : isExact r = true) : ∃ x, val a = some x ∧ val r = some (absR x) :=
+  abs_spec a ha h he
+
+/-- `numerator`, `denominator`: those of the value in lowest terms. -/
+theorem numerator_denominator_correct (a : Num) (ha : a.WF = true) {r s : Num}
+    (h1 : numerator a = some r) (h2 : denominator a = some s) :
+    ∃ x : Rat, val a = some x ∧ val r = some (x.num : Rat) ∧ val s = some (x.den : Rat) :=
+  numer_denom_spec a ha h1 h2
+
+/-- `expt` with a non-negative integer exponent: an exact answer is the exact power. -/
+theorem expt_exact_correct (a : Num) (ha : a.WF = true) (e : Nat) {r : Num} (h : pow a e = some r)
+    (he : isExact r = true) : ∃ x, val a = some x ∧ val r = some (x ^ e) :=
+  pow_spec a ha e h he
+
+/-! ### T08.5 — variadic `+ * −` -/
+
+/-- T08.5: the variadic procedures are folds of the binary operations, taken from the last
+    argument to the first (the order in which the arguments leave the VM stack). -/
+theorem variadic_are_folds (args : List Num) (a : Num) (rest : List Num) :
+    scmPlus args = .ok (args.reverse.foldl add (.fix 0)) ∧
+    scmTimes args = .ok (args.reverse.foldl mul (.fix 1)) ∧
+    scmMinus [a] = .ok (mul (sub a (.fix 0)) (.fix (-1))) ∧
+    (rest ≠ [] → scmMinus (a :: rest) = .ok (sub a (rest.reverse.foldl add (.fix 0)))) := by
+  refine ⟨rfl, rfl, rfl, ?_⟩
+  intro h
+  cases rest with
+  | nil => exact absurd rfl h
+  | cons b r => rfl
+
+/-- T08.5 + T08.1: an exactly answered `(+ a1 … an)` had only exact arguments and is their sum in ℚ. -/
+theorem plus_exact_correct (args : List Num) (hw : ∀ a ∈ args, a.WF = true) {r : Num}
+    (h : scmPlus args = .ok r) (he : isExact r = true) :
+    ∃ xs : List Rat, List.Forall₂ (fun a v => isExact a = true ∧ val a = some v) args.reverse xs ∧
+      val r = some (xs.foldl (· + ·) 0) := by
+  simp only [scmPlus, Outcome.ok.injEq] at h; subst h
+  obtain ⟨x, xs, hx, hf, hv⟩ := foldl_add_exact args.reverse (.fix 0) trivial
+    (fun a ha => DenPos.of_wf (hw a (List.mem_reverse.mp ha))) he
+  simp only [val_fix, Option.some.injEq] at hx
+  refine ⟨xs, hf, ?_⟩
+  rw [hv, ← hx]; simp
+
+/-- T08.5 + T08.1 for `*`. -/
+theorem times_exact_correct (args : List Num) (hw : ∀ a ∈ args, a.WF = true) {r : Num}
+    (h : scmTimes args = .ok r) (he : isExact r = true) :
+    ∃ xs : List Rat, List.Forall₂ (fun a v => isExact a = true ∧ val a = some v) args.reverse xs ∧
+      val r = some (xs.foldl (· * ·) 1) := by
+  simp only [scmTimes, Outcome.ok.injEq] at h; subst h
+  obtain ⟨x, xs, hx, hf, hv⟩ := foldl_mul_exact args.reverse (.fix 1) trivial
+    (fun a ha => DenPos.of_wf (hw a (List.mem_reverse.mp ha))) he
+  simp only [val_fix, Option.some.injEq] at hx
+  refine ⟨xs, hf, ?_⟩
+  rw [hv, ← hx]; simp
+
+/-! ### no panic -/
+
+/-- The procedure `/` never panics; the direct operation never panics for a non-zero divisor. -/
+theorem divide_never_panics (args : List Num) (s : String) : scmDivide args ≠ .panic s :=
+  scmDivide_no_panic args s
+
+theorem div_total (a b : Num) (hz : isZero b = false) : ∃ x, div a b = .ok x :=
+  div_no_panic a b hz
+
+/-! ### T08.2 / T08.4 — FALSE at full strength on the pinned tree
+
+The property demands that an inexact answer is given only when the exact result is not
+representable, and that the answer does not depend on the representation of an operand.  Both fail
+(known findings C08-wide-int-with-rational, C08-rational-overflow, C08-div-wide,
+C08-expt-rational, C08-variadic-contagion).  The full statements stay visible as `Prop`s, their
+negations are proved at concrete witnesses, the `_partial` theorems carry explicit guards. -/
+
+/-- T08.2 (first conjunct), full strength, for a binary operation -/
+def InexactOnlyWhenNeeded (op : Num → Num → Num) (spec : Rat → Rat → Rat) : Prop :=
+  ∀ a b : Num, a.WF = true → b.WF = true → isExact a = true → isExact b = true →
+    isExact (op a b) = false → ∀ x y, val a = some x → val b = some y →
+      representable (spec x y) = false
+
+/-- `(+ 1/2 2147483647/2)` answers `1073741824.0` although 1073741824 is an integer. -/
+theorem not_T08_2_add : ¬ InexactOnlyWhenNeeded add (· + ·) := by
+  intro h
+  have := h (.rat 1 2) (.rat 2147483647 2) (by decide) (by decide) rfl rfl (by decide) _ _ rfl rfl
+  revert this; decide
+
+/-- `(* 4294967296 1/2)` answers `2147483648.0`. -/
+theorem not_T08_2_mul : ¬ InexactOnlyWhenNeeded mul (· * ·) := by
+  intro h
+  have := h (.fix 4294967296) (.rat 1 2) (by decide) (by decide) rfl rfl (by decide) _ _ rfl rfl
+  revert this; decide
+
+/-- `(- 3000000000 1/1)` (an integer-valued rational) answers `2999999999.0`. -/
+theorem not_T08_2_sub : ¬ InexactOnlyWhenNeeded sub (· - ·) := by
+  intro h
+  have := h (.fix 3000000000) (.rat 1 1) (by decide) (by decide) rfl rfl (by decide) _ _ rfl rfl
+  revert this; decide
+
+/-- `(/ 5000000000 5)` answers `1000000000.0`: the full statement for division is false. -/
+theorem not_T08_2_div :
+    ¬ (∀ a b : Num, a.WF = true → b.WF = true → ∀ r, div a b = .ok r → isExact r = false →
+        ∀ x y, val a = some x → val b = some y → representable (x / y) = false) := by
+  intro h
+  have := h (.fix 5000000000) (.fix 5) (by decide) (by decide) _ rfl (by decide) _ _ rfl rfl
+  revert this; decide
+
+/-- T08.2_partial (+ − ×): between integer representations (`fix`, `big`) the answer is always
+    exact, whatever the magnitudes — the bignum fall-back is complete. -/
+theorem T08_2_partial_integers (a b : Num) (ha : intVal? a ≠ none) (hb : intVal? b ≠ none)
+    (hra : isRatRep a = false) (hrb : isRatRep b = false) :
+    isExact (add a b) = true ∧ isExact (sub a b) = true ∧ isExact (mul a b) = true := by
+  cases a <;> cases b <;> simp_all [intVal?, isRatRep, add, sub, mul, isExact] <;>
+    (refine ⟨?_, ?_, ?_⟩ <;> split <;> rfl)
+
+/-- T08.2_partial (÷): when both operands are integers within the i32 range (in `fix` or `big`
+    representation) an inexact quotient is given only when the exact quotient is not
+    representable (its reduced denominator is 2^31). -/
+theorem T08_2_partial_div (a b : Num) {l r : Int} (hl : asI32 a = some l) (hr : asI32 b = some r)
+    (hr0 : r ≠ 0) {x : Num} (h : div a b = .ok x) (he : isExact x = false) :
+    representable ((l : Rat) / (r : Rat)) = false := by
+  have hdiv : div a b = ratioOfI32 l r := by
+    cases a <;> cases b <;> simp_all [div, asI32]
+  rw [hdiv] at h
+  unfold ratioOfI32 at h
+  simp only [beq_iff_eq, hr0, if_false] at h
+  rw [← Rat.divInt_eq_div]
+  unfold representable
+  split at h
+  · cases h; simp [isExact] at he
+  · rename_i h1
+    split at h
+    · cases h; simp [isExact] at he
+    · rename_i h2
+      simp only [Bool.and_eq_true, not_and, Bool.not_eq_true] at h1
+      simp only [beq_iff_eq] at h2
+      simp only [Bool.or_eq_false_iff, beq_eq_false_iff_ne, ne_eq, Bool.and_eq_false_iff]
+      refine ⟨?_, ?_⟩
+      · intro hd; apply h2; exact_mod_cast hd
+      · by_cases hn : inI32 (Rat.divInt l r).num = true
+        · right; exact h1 hn
+        · left; simpa using hn
+
+/-- T08.4, full strength (representation independence of exactness), is false: the value 5 carried
+    as a fixnum or as a bignum gives `11/2` or `5.5` when `1/2` is added. -/
+theorem not_T08_4 :
+    ¬ (∀ a a' b : Num, a.WF = true → a'.WF = true → b.WF = true → val a = val a' →
+        isExact (add a b) = isExact (add a' b)) := by
+  intro h
+  have := h (.fix 5) (.big 5) (.rat 1 2) (by decide) (by decide) (by decide) rfl
+  revert this; decide
+
+/-- T08.4_partial: whenever both answers are exact they have the same value (a corollary of
+    T08.1) — only the *exactness* depends on the representation, never the value of an exact answer. -/
+theorem T08_4_partial_value (a a' b b' : Num) (ha : a.WF = true) (ha' : a'.WF = true)
+    (hb : b.WF = true) (hb' : b'.WF = true) (hva : val a = val a') (hvb : val b = val b')
+    (h1 : isExact (add a b) = true) (h2 : isExact (add a' b') = true) :
+    val (add a b) = val (add a' b') := by
+  obtain ⟨x, y, hx, hy, hv⟩ := add_exact a b (DenPos.of_wf ha) (DenPos.of_wf hb) h1
+  obtain ⟨x', y', hx', hy', hv'⟩ := add_exact a' b' (DenPos.of_wf ha') (DenPos.of_wf hb') h2
+  rw [hv, hv']
+  rw [hva, hx'] at hx; rw [hvb, hy'] at hy
+  cases hx; cases hy; rfl
+
+/-- T08.4_partial for the integer operations: the answers of `quotient remainder modulo` depend
+    only on the integer values of the operands, not on their representations. -/
+theorem T08_4_partial_integer_ops (a a' b b' : Num) (hb : b.WF = true) (hb' : b'.WF = true)
+    {x y : Int} (hx : intVal? a = some x) (hx' : intVal? a' = some x) (hy : intVal? b = some y)
+    (hy' : intVal? b' = some y) (hy0 : y ≠ 0) :
+    ∃ q q' r r' m m', quotient a b = some (.ok (some q)) ∧ quotient a' b' = some (.ok (some q')) ∧
+      intVal? q = intVal? q' ∧ rem a b = some (.ok (some r)) ∧ rem a' b' = some (.ok (some r')) ∧
+      intVal? r = intVal? r' ∧ modulo a b = some (.ok (some m)) ∧
+      modulo a' b' = some (.ok (some m')) ∧ intVal? m = intVal? m' := by
+  obtain ⟨q, h1, v1⟩ := quotient_spec a b hx hy hy0
+  obtain ⟨q', h1', v1'⟩ := quotient_spec a' b' hx' hy' hy0
+  obtain ⟨r, h2, v2, _⟩ := rem_spec a b hx hy hy0
+  obtain ⟨r', h2', v2', _⟩ := rem_spec a' b' hx' hy' hy0
+  obtain ⟨m, h3, v3⟩ := modulo_spec a b hb hx hy hy0
+  obtain ⟨m', h3', v3'⟩ := modulo_spec a' b' hb' hx' hy' hy0
+  exact ⟨q, q', r, r', m, m', h1, h1', by rw [v1, v1'], h2, h2', by rw [v2, v2'], h3, h3',
+    by rw [v3, v3']⟩
+
 /-! ### non-vacuity -/
 
 example : add (.fix 9223372036854775807) (.fix 1) = .big 9223372036854775808 := by decide
@@ -78,5 +297,12 @@ example : div (.fix (-2147483648)) (.fix (-1)) = .ok (.fix 2147483648) := by dec
 example : quotient (.fix (-9223372036854775808)) (.fix (-1)) = some (.ok (some (.big 9223372036854775808))) := by
   decide
 example : modulo (.fix (-7)) (.rat 2 1) = some (.ok (some (.rat 1 1))) := by decide
+example : scmQuotient [.rat 7 1, .rat 2 1] = some (.ok (.fix 3)) := by decide
+example : abs (.rat (-2147483648) 1) = some (.fix 2147483648) := by decide
+example : ceil (.rat 2147483647 2) = some (.rat 1073741824 1) := by decide
+example : pow (.fix 3037000500) 2 = some (.big 9223372037000250000) := by decide
+example : scmPlus [.fix 1, .rat 1 2, .big 3] = .ok (.rat 9 2) := by decide
+-- the guards of the `_partial` theorems are satisfiable on the boundary
+example : div (.fix 1) (.fix (-2147483648)) = .ok (.flo ⟨0xbe00000000000000⟩) := by decide +kernel
 
 end Marwood.Proofs.C08
